@@ -49,13 +49,13 @@ func (c *c20) ProbeNames() []string {
 }
 
 func (c *c20) SweepPrefix(string, uint64) []uint64 { return nil }
-func (c *c20) SweepCount(string) uint64           { return 0 }
+func (c *c20) SweepCount(string) uint64            { return 0 }
 func (c *c20) Init(env *Env) error                 { c.env = env; return nil }
 
 type c20node struct {
-	name  string
-	dir   bool
-	kids  []*c20node
+	name string
+	dir  bool
+	kids []*c20node
 }
 
 var c20stems = []string{"a", "b", "ab", "a.txt", "txt", ".txt", "x", "t", "aa", "ba", "a.b", "."}
